@@ -706,6 +706,7 @@ public:
 
         auto in_data = map_file(in_filename, in_bytes);
         this->n = in_bytes / sizeof(K);
+        this->first_key = this->n ? in_data[0] : K(0);
         this->template build(in_data, in_data + this->n, Epsilon, EpsilonRecursive,
                              this->segments, this->levels_offsets);
         serialize_and_map(in_data, in_data + this->n, out_filename);
